@@ -64,7 +64,8 @@ func VH_C18_snps() {
 		ref = []byte(">ref\nAXG\n")
 	}
 	if kind != 1 { // the symbolic offending byte is explored under the default schedule only
-		vSchedExplore(vParam("DEV"))
+		vRaceDetect()
+	vSchedExplore(vParam("DEV"))
 	}
 	w := &vCapture{}
 	err := SNPs(bytes.NewReader(ref), bytes.NewReader(aln), false, vBool("aggregate"), 0, w)
